@@ -153,6 +153,16 @@ func (c Check[C]) Rapid(t *testing.T) {
 	defer col.Write()
 	var lastPath string
 	var last *Violation
+	defer func() { // rapid.Check ends the test with Goexit on failure: report from a deferred call
+		if c.Extra != nil {
+			for k, v := range c.Extra() {
+				col.SetExtra(k, v)
+			}
+		}
+		if last != nil {
+			fmt.Printf("VIOLATION-DETAIL property=%s stage=%s signature=%s replay=%s\n%s\n", c.Property, c.Stage, last.Signature, lastPath, last.Message)
+		}
+	}()
 	rapid.Check(t, func(rt *rapid.T) {
 		cs := c.Gen(rt)
 		nt, classes := false, []string(nil)
@@ -178,14 +188,6 @@ func (c Check[C]) Rapid(t *testing.T) {
 		last = v
 		failCase(rt, v)
 	})
-	if c.Extra != nil {
-		for k, v := range c.Extra() {
-			col.SetExtra(k, v)
-		}
-	}
-	if last != nil {
-		fmt.Printf("VIOLATION-DETAIL property=%s stage=%s signature=%s replay=%s\n%s\n", c.Property, c.Stage, last.Signature, lastPath, last.Message)
-	}
 }
 
 // TestReplay re-executes a case file without rapid.
